@@ -51,3 +51,10 @@ SPEC = dict(
         "(fromDict_canon; the constructors assert is_canonical in the assert build)",
     ],
 )
+
+SPEC.setdefault("level_text", "Lean theorems (40, for all polynomials/exponents) over the executable model of ODictWrapper arithmetic, the Kronecker-substitution "
+    "UIntDict::mul, pow, divides_upoly, eval, diff: results are canonical dictionaries denoting exactly the Mathlib Polynomial sum/product/power/"
+    "derivative/eval; the model is tied to /repo by differential correspondence on every run and an independent schoolbook GMP oracle judges the real outputs.")
+SPEC.setdefault("level_note", "Trusted: Lean kernel + Mathlib Polynomial; the correspondence harness; GMP. Not covered: degrees near 2^32, FLINT/Piranha classes, "
+    "symbolic UExprPoly coefficients, from_basic on general expressions (oracle only).")
+SPEC.setdefault("technique", "Lean 4 proofs over an executable model + differential correspondence + independent oracle")
